@@ -5,7 +5,10 @@ FRESH thermodynamics object built from the TDB *string* (kawin inserts DIS_ para
 given, so a parsed Database is never shared).
 
 (1) element order - ternary objects with the two solute orders (Ni-Cr-Al with mobility and with diffusivity
-    parameters, Fe-Cr-Ni), same sequence of public queries on both at random points:
+    parameters, Fe-Cr-Ni), same sequence of public queries on both at random points.  In two of three query cases,
+    every homogenization run and two of three single-phase runs a NON-UNIFORM mobility correction
+    (setMobilityCorrection, one or two elements incl. the reference, factors 0.2..8, not within 15 % of 1 or of each
+    other) is set BY ELEMENT NAME on both objects, so that per-element options applied by position become visible:
       c11.elem.driving_force     getDrivingForce (all four methods): dG equal, precipitate composition permuted
                                  ('sampling': dG only - the arg-max over a discrete sample set is discontinuous)
       c11.elem.interdiffusivity  getInterdiffusivity: rows and columns permuted
@@ -37,7 +40,11 @@ given, so a parsed Database is never shared).
                                  D reaches 1e-8 (measured).  Both members perform the same public call sequence
                                  (setup, getFluxes, solve); the run length is not a whole number of initial steps.
 (2) phase order - two-/three-phase Al-Mg-Si precipitation runs with the precipitate list (model and backend) in
-    every order; the backend is used memoryless (setThermodynamics(..., removeCache=True) semantics) because with cached
+    every order; all per-phase options are given by phase name and are heterogeneous (distinct molar volumes and
+    interfacial energies, sites, parent phases; every fourth configuration: ONE phase - which one varies - computes its
+    aspect ratio from an elastic strain energy (calculateAspectRatio, needle/plate, bulk sites, infinite internal
+    diffusion) while the others are cubes/spheres on dislocations without internal diffusion), so that anything looked up
+    per phase by position shows; the backend is used memoryless (setThermodynamics(..., removeCache=True) semantics) because with cached
     composition sets the permuted per-step query sequence itself changes driving forces by ~1e-9 and nucleation rates
     by ~1e-6 (measured; history dependence of the backend is C09's subject) - those cached pairs are run in the
     thorough tier and only recorded (worst 'observed_only_cached_*'), never asserted.
@@ -173,14 +180,17 @@ def plan(tier, seed):
         heavy = s.startswith('NiCrAl')
         npts = (14 if heavy else 36) if quick else (25 if heavy else 60)
         for r in range(reps):
-            cases.append({'kind': 'query', 'system': s, 'method': m, 'npts': npts, 'rep': r, 'first': (r % 2),
-                          'weight': npts * (2.0 if heavy else 0.4)})
+            # non-uniform mobility correction set BY ELEMENT NAME on both objects (rep 0: none, 1: one element, 2: two elements)
+            crng = core.case_rng(seed, PROPERTY, 300000 + len(cases))
+            corr = _draw_correction(crng, [SYSTEMS[s]['ref']] + list(SYSTEMS[s]['solutes']), r % 3)
+            cases.append({'kind': 'query', 'system': s, 'method': m, 'npts': npts, 'rep': r, 'first': (r % 2) if r < 3 else ((r // 3) % 2),
+                          'corr': corr, 'weight': npts * (2.0 if heavy else 0.4)})
     # ---- (1b) diffusion runs
     nd = 8 if quick else 60
     for k in range(nd):
         cases.append({'kind': 'diffusion', 'k': k, 'weight': 8.0})
     # ---- (2) phase order
-    npr = 3 if quick else 14
+    npr = 4 if quick else 14
     for k in range(npr):
         rng = core.case_rng(seed, PROPERTY, 100000 + k)
         cfg = _precip_cfg(rng, tier, k)
@@ -204,6 +214,22 @@ def plan(tier, seed):
     for k in range(ng):
         cases.append({'kind': 'getdt', 'k': k, 'n': 120 if quick else 200, 'weight': 40.0})
     return cases
+
+
+def _draw_correction(rng, elements, n):
+    """{element: factor} for n distinct elements (reference element included), factors log-uniform in [0.2, 8] and not within
+    15 % of 1 or of each other (a uniform correction would hide position/name mix-ups)"""
+    if n <= 0:
+        return {}
+    els = [str(e) for e in rng.choice(elements, size=min(n, len(elements)), replace=False)]
+    out = {}
+    for e in els:
+        for _ in range(50):
+            f = float(np.exp(rng.uniform(np.log(0.2), np.log(8.0))))
+            if abs(np.log(f)) > 0.15 and all(abs(np.log(f / g)) > 0.15 for g in out.values()):
+                break
+        out[e] = f
+    return out
 
 
 def run_case(case, R):
@@ -267,7 +293,7 @@ def _safe(f):
 # =================================================================================================
 # (1a) point queries on paired objects with permuted solute lists
 
-def _make_pair(system, method, first):
+def _make_pair(system, method, first, corr=None):
     """two FRESH objects from the TDB string; `first` selects which solute order plays the role of object A"""
     from kawin.thermo import MulticomponentThermodynamics
     import kawin.tests.datasets as ds
@@ -280,6 +306,8 @@ def _make_pair(system, method, first):
                                           drivingForceMethod=method)
         th.setDFSamplingDensity(2000)
         th.setEQSamplingDensity(500)
+        for e, f in (corr or {}).items():
+            th.setMobilityCorrection(e, f)          # public option, addressed by element name
         objs.append(th)
     return objs[0], objs[1], orderA, orderB
 
@@ -341,7 +369,7 @@ def _run_query(case, R):
     S = SYSTEMS[case['system']]
     rng = core.case_rng(case['seed'], PROPERTY, case['idx'])
     try:
-        A, B, orderA, orderB = _make_pair(case['system'], case['method'], case['first'])
+        A, B, orderA, orderB = _make_pair(case['system'], case['method'], case['first'], case.get('corr'))
     except Exception as e:
         R.inconclusive = 'thermodynamics construction failed: %r' % (e,)
         return
@@ -349,7 +377,7 @@ def _run_query(case, R):
     pbf = [0] + [1 + i for i in pb]                   # with the reference element in front
     sw = [1, 0]                                       # self-permutation (what a forgotten re-ordering would give)
     swf = [0, 2, 1]
-    mech0 = {'system': case['system'], 'method': case['method']}
+    mech0 = {'system': case['system'], 'method': case['method'], 'mobility_correction': len(case.get('corr') or {})}
     n_nt = 0
     for i in range(case['npts']):
         xA = np.array([rng.uniform(*S['win'][e]) for e in orderA])
@@ -479,7 +507,8 @@ def _run_query(case, R):
         if len(C.distinct) >= 4:
             n_nt += 1
             R.add_nontrivial('q-%s-%s-%d-%d-%d' % (case['system'], case['method'], case['seed'], case['rep'], i))
-    R.info.update({'system': case['system'], 'method': case['method'], 'order_A': orderA, 'nontrivial_points': n_nt})
+    R.observe('points_with_mobility_correction', case['npts'] if case.get('corr') else 0)
+    R.info.update({'system': case['system'], 'method': case['method'], 'order_A': orderA, 'nontrivial_points': n_nt, 'corr': case.get('corr')})
     R.set_nontrivial(False)
 
 
@@ -524,8 +553,28 @@ def _precip_cfg(rng, tier, k):
         cfg['shape'] = {'MG5SI6_B_DP': {'name': 'needle', 'ar': float(rng.uniform(1.5, 4.0))}}
     if rng.random() < 0.3:
         cfg['infDiff'] = {p: bool(rng.random() < 0.5) for p in ph}
+    hetero = (k % 4 == 3)
+    if hetero:
+        # per-phase options are heterogeneous and configured BY PHASE NAME, so that anything looked up per phase by position shows:
+        # one phase (which one varies) computes its aspect ratio from an elastic strain energy and is a needle / plate with
+        # infinitely fast internal diffusion on bulk sites; the others are cubes / spheres without internal diffusion on dislocations
+        j = (k // 4) % 2
+        pa = ph[j]
+        cfg['calcAR'] = [pa]
+        cfg['shape'] = {pa: {'name': 'needle' if (k // 8) % 2 == 0 else 'plate', 'ar': 1.0}}
+        cfg['strain'] = {pa: {'kind': 'elastic', 'E': float(rng.uniform(60e9, 80e9)), 'nu': float(rng.uniform(0.3, 0.35)),
+                              'eigenstrain': [0.022, 0.022, 0.003] if (k // 8) % 2 == 0 else [0.004, 0.004, 0.02]}}
+        others = [p for p in ph if p != pa]
+        cfg['shape'][others[0]] = {'name': 'cubic', 'ar': float(rng.uniform(1.2, 2.5))}
+        cfg['infDiff'] = {p: (p == pa) for p in ph}
+        cfg['site'] = {p: ('bulk' if p == pa else 'dislocations') for p in ph}
+        cfg['bulkN0'] = float(10 ** rng.uniform(27.5, 29))
+        cfg.pop('parents', None)
+    cfg['hetero'] = hetero
     cfg['removeCache'] = True
     ms = (700 if tier == 'quick' else 1400)
+    if hetero:
+        ms = 150 if tier == 'quick' else 300      # the elastic strain energy of every size class costs ~0.1 s per step
     if cfg['iterator'] == 'rk4':
         ms = ms // 3
     if three:
@@ -624,8 +673,7 @@ class _PhaseRunMonitor:
     def on_build(self, run, model):
         if self.cfg.get('removeCache', True):
             model.setThermodynamics(model.therm, removeCache=True)
-        for child, parents in (self.cfg.get('parents') or {}).items():
-            model.setParentPhases(child, list(parents))
+        # cfg['parents'] (by phase name) is applied by vlib.precip.build_model
 
     def on_step(self, run, model, c):
         if not self.in_run:
@@ -716,7 +764,7 @@ def _run_precip(case, R):
     cfg, runA, monA, A, active = base
     P = len(cfg['phases'])
     mech0 = {'nphases': P, 'iterator': cfg['iterator'], 'sites': '+'.join(sorted(set(cfg['site'].values()))),
-             'parents': bool(cfg.get('parents'))}
+             'parents': bool(cfg.get('parents')), 'calcAR': bool(cfg.get('calcAR'))}
     R.info.update({'T': cfg['schedule']['T'], 'phases': cfg['phases'], 'active': active, 'steps': len(A['time']) - 1, 'capped': runA.capped,
                    'constraints': cfg['constraints'], 'binding_rule_steps': monA.binding, 'in_run_nontrivial_steps': monA.nt,
                    'max_density': [float(np.max(A['precipitateDensity'][:, j])) for j in range(P)]})
@@ -799,6 +847,7 @@ def _diffusion_cfg(rng, k, quick):
            'steps': int(rng.integers(30, 50) if homog else rng.integers(25, 45)), 'profile': {}, 'bc': {}}
     if homog:
         cfg['hfunc'] = HFUNCS[(k // 4) % len(HFUNCS)]
+    cfg['corr'] = {}                                   # filled after all other draws (keeps the earlier configurations unchanged)
     for e in S['solutes']:
         lo, hi = win[e]
         kind = str(rng.choice(['step', 'linear']))
@@ -814,6 +863,9 @@ def _diffusion_cfg(rng, k, quick):
             # inflow only, sized at run time (from the first stable step of run A) so that the boundary node gains `amount` over
             # the run: compositions stay inside the window (the dilute corner x -> 1e-8 has solver noise ~1e-8 in D, measured)
             cfg['bc'][e] = {'side': side, 'type': 'flux', 'amount': float(rng.uniform(0.005, 0.03)), 'value': None}
+    # non-uniform mobility correction by element name: every homogenization run and two of three single-phase runs
+    ncorr = (1 + (k // 4) % 2) if homog else (k % 3)
+    cfg['corr'] = _draw_correction(rng, [S['ref']] + list(S['solutes']), ncorr)
     return cfg
 
 
@@ -839,6 +891,8 @@ def _build_diffusion(cfg, order):
         bc = cfg['bc'].get(e)
         if bc:
             m.boundaryConditions.setBoundaryCondition(bc['side'], bc['type'], bc['value'] if bc['value'] is not None else 0.0, e)
+    for e, f in (cfg.get('corr') or {}).items():
+        th.setMobilityCorrection(e, f)
     m.setTemperature(cfg['T'])
     m.setThermodynamics(th)
     return m
@@ -887,7 +941,10 @@ def _run_diffusion(case, R):
     S = DIFF_SYSTEMS[cfg['system']]
     orderA = list(S['solutes']) if case['k'] % 2 == 0 else list(S['solutes'])[::-1]
     orderB = orderA[::-1]
-    mech = {'system': cfg['system'], 'model': cfg['model'], 'iterator': cfg['iterator'], 'hfunc': cfg.get('hfunc')}
+    mech = {'system': cfg['system'], 'model': cfg['model'], 'iterator': cfg['iterator'], 'hfunc': cfg.get('hfunc'),
+            'mobility_correction': len(cfg.get('corr') or {})}
+    if cfg.get('corr'):
+        R.observe('diffusion_pairs_with_mobility_correction')
     sa, ra = _safe(lambda: _diffusion_run(cfg, orderA, None))
     if sa == 'exc':
         R.observe('diffusion_base_run_raised')
